@@ -387,6 +387,19 @@ static json::Value exprJ(const Expr *E0) {
     o["lt"] = "bool";
     return std::move(o);
   }
+  if (const auto *X = dyn_cast<CharacterLiteral>(E)) {
+    o["k"] = "lit";
+    o["v"] = std::to_string(X->getValue());
+    o["lt"] = "int";
+    o["char"] = true;
+    return std::move(o);
+  }
+  if (const auto *X = dyn_cast<CXXNoexceptExpr>(E)) {
+    o["k"] = "lit";
+    o["v"] = X->getValue() ? "true" : "false";
+    o["lt"] = "bool";
+    return std::move(o);
+  }
   if (isa<CXXNullPtrLiteralExpr>(E) || isa<GNUNullExpr>(E)) {
     o["k"] = "lit";
     o["v"] = "nullptr";
@@ -763,6 +776,119 @@ static json::Value declJ(const VarDecl *VD) {
   return std::move(o);
 }
 
+// A switch whose case groups never fall through into one another and whose condition has no side effects is the if-chain
+// over its labels; anything else stays outside the vocabulary.
+static bool strayBreak(const Stmt *S) {
+  if (!S) return false;
+  if (isa<BreakStmt>(S)) return true;
+  if (isa<ForStmt>(S) || isa<WhileStmt>(S) || isa<DoStmt>(S) || isa<CXXForRangeStmt>(S) || isa<SwitchStmt>(S) || isa<LambdaExpr>(S))
+    return false;
+  for (const Stmt *C : S->children())
+    if (strayBreak(C)) return true;
+  return false;
+}
+
+static bool leavesGroup(const Stmt *S) {
+  if (!S) return false;
+  if (isa<BreakStmt>(S) || isa<ReturnStmt>(S) || isa<ContinueStmt>(S)) return true;
+  if (const auto *E = dyn_cast<Expr>(S)) {
+    const Expr *P = E;
+    if (const auto *X = dyn_cast<ExprWithCleanups>(P)) P = X->getSubExpr();
+    return isa<CXXThrowExpr>(P);
+  }
+  if (const auto *X = dyn_cast<CompoundStmt>(S)) return !X->body_empty() && leavesGroup(X->body_back());
+  return false;
+}
+
+static bool lowerSwitch(const SwitchStmt *X, json::Object &o) {
+  if (X->getInit() || X->getConditionVariable() || !X->getCond() || X->getCond()->HasSideEffects(*G.AC)) return false;
+  const auto *B = dyn_cast_or_null<CompoundStmt>(X->getBody());
+  if (!B) return false;
+  struct Group { std::vector<const Expr *> labels; bool isDefault = false; std::vector<const Stmt *> stmts; };
+  std::vector<Group> groups;
+  for (const Stmt *C : B->body()) {
+    const Stmt *Cur = C;
+    bool labelled = false;
+    while (const auto *SC = dyn_cast<SwitchCase>(Cur)) {
+      if (!labelled) {
+        if (!groups.empty() && !groups.back().stmts.empty() && !leavesGroup(groups.back().stmts.back())) return false;  // falls through
+        if (groups.empty() || !groups.back().stmts.empty()) groups.emplace_back();
+        labelled = true;
+      }
+      if (const auto *CS = dyn_cast<CaseStmt>(SC)) {
+        if (CS->caseStmtIsGNURange()) return false;
+        groups.back().labels.push_back(CS->getLHS());
+      } else
+        groups.back().isDefault = true;
+      Cur = SC->getSubStmt();
+    }
+    if (groups.empty()) return false;     // a statement before the first label
+    if (Cur) groups.back().stmts.push_back(Cur);
+  }
+  for (Group &g : groups) {
+    if (!g.stmts.empty() && isa<BreakStmt>(g.stmts.back())) g.stmts.pop_back();
+    for (const Stmt *St : g.stmts)
+      if (strayBreak(St)) return false;
+  }
+  auto body = [&](const Group &g) {
+    json::Object b;
+    b["k"] = "block";
+    b["line"] = (int64_t)(g.stmts.empty() ? lineOf(X->getBeginLoc()) : lineOf(g.stmts.front()->getBeginLoc()));
+    json::Array a;
+    for (const Stmt *St : g.stmts) a.push_back(stmtJ(St));
+    b["body"] = std::move(a);
+    return json::Value(std::move(b));
+  };
+  auto test = [&](const Group &g) {
+    json::Value acc = nullptr;
+    for (const Expr *L : g.labels) {
+      json::Object e;
+      e["k"] = "bin";
+      e["op"] = "==";
+      e["line"] = (int64_t)lineOf(L->getBeginLoc());
+      e["l"] = exprJ(X->getCond());
+      e["r"] = exprJ(L);
+      e["t"] = typeInfo(G.AC->BoolTy);
+      e["lt"] = typeInfo(X->getCond()->getType());
+      if (acc == json::Value(nullptr))
+        acc = std::move(e);
+      else {
+        json::Object d;
+        d["k"] = "bin";
+        d["op"] = "||";
+        d["line"] = (int64_t)lineOf(L->getBeginLoc());
+        d["l"] = std::move(acc);
+        d["r"] = std::move(e);
+        d["t"] = typeInfo(G.AC->BoolTy);
+        d["lt"] = typeInfo(G.AC->BoolTy);
+        acc = std::move(d);
+      }
+    }
+    return acc;
+  };
+  json::Value tail = nullptr;
+  for (const Group &g : groups)
+    if (g.isDefault) tail = body(g);     // labels sharing the default group add nothing to it
+  for (auto it = groups.rbegin(); it != groups.rend(); ++it) {
+    if (it->isDefault || it->labels.empty()) continue;
+    json::Object i;
+    i["k"] = "if";
+    i["constexpr"] = false;
+    i["line"] = (int64_t)lineOf(it->labels.front()->getBeginLoc());
+    i["cond"] = test(*it);
+    i["then"] = body(*it);
+    i["else"] = std::move(tail);
+    i["from"] = "switch";
+    tail = std::move(i);
+  }
+  if (tail == json::Value(nullptr)) {
+    o["k"] = "null";
+    return true;
+  }
+  o = std::move(*tail.getAsObject());
+  return true;
+}
+
 static json::Value stmtJ(const Stmt *S) {
   if (!S) return nullptr;
   json::Object o;
@@ -842,6 +968,10 @@ static json::Value stmtJ(const Stmt *S) {
     o["cond"] = exprJ(X->getCond());
     o["body"] = stmtJ(X->getBody());
     return std::move(o);
+  }
+  if (const auto *X = dyn_cast<SwitchStmt>(S)) {
+    json::Object l;
+    if (lowerSwitch(X, l)) return std::move(l);
   }
   if (const auto *X = dyn_cast<OMPExecutableDirective>(S)) {
     // #pragma omp parallel for: record the directive and the associated loop
